@@ -6,6 +6,7 @@
 import base64
 import os
 import re
+import shutil
 
 import common
 import driver
@@ -206,6 +207,19 @@ class BigCase:
                 "harness_line": self.line().strip(), "generator": "bigregion: " + self.what}
 
 
+def big_from_line(line, what="replay"):
+    """R <in> <out> [<hexprefix>]*<count>:<hexpattern>,...  ->  BigCase"""
+    _, fi, fo, regs = line.split(" ", 3)
+    parts, prefix = [], b""
+    for k, reg in enumerate(regs.strip().split(",")):
+        pre, rest = reg.split("*", 1)
+        cnt, pat = rest.split(":", 1)
+        if k == 0:
+            prefix = bytes.fromhex(pre)
+        parts.append((int(cnt), bytes.fromhex(pat)))
+    return BigCase(int(fi), int(fo), parts, what, prefix=prefix)
+
+
 def gen_big(ctx):
     """region sizes at and around the limits of _dispatch_transform_buffer_new: BUFFER_MALLOC_MAX/2, /3, the exact
     boundaries (2*size+2 = MAX for UTF-8 input, howmany(size,3)*2 and size+k = MAX for UTF-16 input), and beyond"""
@@ -251,30 +265,37 @@ def parse_summary(txt):
     return out
 
 
-def run_big(exe, cases, fail, asan=False):
+def run_big(exe, cases, fail, mism, asan=False):
+    """returns the number of cases that were actually answered"""
     env = dict(os.environ)
     if asan:
         env["ASAN_OPTIONS"] = "detect_leaks=0:abort_on_error=0:exitcode=99:allocator_may_return_null=1:max_allocation_size_mb=1024"
     start = 0
-    n_run = 0
     while start < len(cases):
-        r = common.run([exe], input="".join(c.line() for c in cases[start:]), timeout=1800, env=env)
+        r, expired = run_limited([exe], input="".join(c.line() for c in cases[start:]), timeout=1800, env=env)
         res = parse_summary(r.stdout)
-        for i, x in enumerate(res):
+        for i, x in enumerate(res[:len(cases) - start]):
             cases[start + i].res = x
-            n_run += 1
         if r.returncode == 0 and len(res) == len(cases) - start:
             break
-        k = start + max(len(res) - 1, 0)
-        msum = re.search(r"SUMMARY: ([^\n]*)", r.stderr)
-        fail(cases[k], "crash: the library %s on a large region: %s" % ("(AddressSanitizer build) died" if asan else "crashed",
-                                                                       msum.group(1) if msum else "exit status %s" % r.returncode))
+        k = min(start + max(len(res) - 1, 0), len(cases) - 1)
         cases[k].res = None
+        if expired or r.returncode == 0:
+            mism.append({"what": "large-region run inconclusive: the harness %s" %
+                                 ("did not finish within 18000 s (tenfold limit, run alone)" if expired else
+                                  "exited normally after %d of %d answers" % (len(res), len(cases) - start)),
+                         "detail": {"case": cases[k].obj()}})
+        else:
+            msum = re.search(r"SUMMARY: ([^\n]*)", r.stderr)
+            fail(cases[k], "crash: the library %s on a large region: %s" % ("(AddressSanitizer build) died" if asan else "crashed",
+                                                                           msum.group(1) if msum else "exit status %s" % r.returncode))
         start = k + 1
+    n_run = 0
     for c in cases:
         x = c.res
-        if not x:
+        if not x or "in" not in x or "out" not in x:
             continue
+        n_run += 1
         if x.get("out") == "N":
             fail(c, "null: well-formed input with a region of %d bytes is rejected (NULL)" % c.size(), impl="NULL")
         elif x.get("back") == "N":
@@ -283,6 +304,8 @@ def run_big(exe, cases, fail, asan=False):
         elif isinstance(x.get("back"), dict) and (x["back"]["hash"] != x["in"]["hash"] or x["back"]["size"] != x["in"]["size"]):
             fail(c, "roundtrip: transforming back the returned object gives %d bytes (hash %s), input was %d bytes (hash %s)"
                  % (x["back"]["size"], x["back"]["hash"], x["in"]["size"], x["in"]["hash"]), impl=x)
+        elif "back" not in x:
+            mism.append({"what": "large-region run: truncated answer", "detail": {"case": c.obj(), "answer": str(x)}})
     return n_run
 
 
@@ -445,15 +468,31 @@ def parse_out(txt):
     return res
 
 
+TIMEOUT_NOTE = "did not finish"
+
+
+def run_limited(cmd, input=None, timeout=900, env=None):
+    """a wall-clock limit alone must not decide anything: on expiry the unit is re-run ONCE with ten times the limit
+    (nothing else of this check runs meanwhile); returns (result, expired) where expired = it still did not finish"""
+    r = common.run(cmd, input=input, timeout=timeout, env=env)
+    if r.returncode == 124:
+        common.log("C20: %s did not finish in %ds; running it once more alone with %ds" % (os.path.basename(cmd[0]), timeout, 10 * timeout))
+        r = common.run(cmd, input=input, timeout=10 * timeout, env=env)
+    return r, r.returncode == 124
+
+
 def run_lib(exe, cases, env=None):
-    r = common.run([exe], input="".join(c.line() for c in cases), timeout=900, env=env)
+    r, expired = run_limited([exe], input="".join(c.line() for c in cases), timeout=900, env=env)
+    r.expired = expired
     res = parse_out(r.stdout)
     return r, res
 
 
 def run_robust(exe, cases, asan=False):
     """runs all cases, restarting after a case that kills the process.
-    returns (reports, results): reports[i] = None or a one-line description of how case i died"""
+    returns (reports, results): reports[i] = None or a one-line description of how case i died;
+    a report that starts with TIMEOUT_NOTE means the harness did not finish even with the tenfold limit (inconclusive:
+    a broken tie, not a verdict about the library)"""
     env = dict(os.environ)
     if asan:
         env["ASAN_OPTIONS"] = "detect_leaks=0:abort_on_error=0:exitcode=99:allocator_may_return_null=1:max_allocation_size_mb=512"
@@ -461,52 +500,89 @@ def run_robust(exe, cases, asan=False):
     res_all = [None] * len(cases)
     start = 0
     guard = 0
-    while start < len(cases) and guard < 400:
+    while start < len(cases):
         guard += 1
+        if guard > 400:
+            for k in range(start, len(cases)):
+                out[k] = TIMEOUT_NOTE + ": not run (more than 400 restarts of the harness)"
+            break
         r, res = run_lib(exe, cases[start:], env)
-        for i, x in enumerate(res):
+        for i, x in enumerate(res[:len(cases) - start]):
             res_all[start + i] = x
         if r.returncode == 0 and len(res) == len(cases) - start:
             break
         # the case that was begun last did not finish
-        k = start + max(len(res) - 1, 0)
+        k = min(start + max(len(res) - 1, 0), len(cases) - 1)
         m = re.search(r"ERROR: AddressSanitizer: ([^\n]*?) on (?:unknown )?address[^\n]*\n(?:[^\n]*\n)?(READ|WRITE) of size (\d+)", r.stderr)
         loc = re.search(r"#\d+ 0x[0-9a-f]+ in \S+ (/\S*transform\.c:\d+)", r.stderr)
-        if m:
+        if r.expired:
+            out[k] = TIMEOUT_NOTE + " within %d s (tenfold limit, run alone)" % 9000
+        elif m:
             out[k] = "%s: %s of size %s at %s" % (m.group(1), m.group(2), m.group(3), loc.group(1) if loc else "?")
+        elif r.returncode == 0:
+            out[k] = TIMEOUT_NOTE + ": the harness exited normally after %d of %d answers" % (len(res), len(cases) - start)
         else:
-            s = re.search(r"SUMMARY: ([^\n]*)", r.stderr)
-            out[k] = (s.group(1) if s else "the process died (exit status %s) %s" % (r.returncode, r.stderr[-200:].strip()))
+            sm = re.search(r"SUMMARY: ([^\n]*)", r.stderr)
+            out[k] = (sm.group(1) if sm else "the process died (exit status %s) %s" % (r.returncode, r.stderr[-200:].strip()))
         res_all[k] = None
         start = k + 1
     return out, res_all
 
 
+def build_plain_harness():
+    """per-process binary name: two checks running at the same time never write the same file"""
+    with common.Lock("c20-harness"):
+        return common.build_harness("c20_transform_%d" % os.getpid(), ["c20_transform.c"], whitebox=False)
+
+
 def asan_build():
-    """AddressSanitizer build of /repo's working tree (clang-14: clang-16 has no sanitizer runtime here)"""
-    bdir = os.path.join(common.CACHE, "build-asan")
-    with common.Lock("build-asan"):
+    """AddressSanitizer build of /repo's working tree (clang-14: clang-16 has no sanitizer runtime here).
+    Own build directory (.cache*/build-asan-c20) and own lock: no other property's sanitizer build and no second C20
+    check can write into it at the same time; the harness binary carries the pid."""
+    bdir = os.path.join(common.CACHE, "build-asan-c20")
+    with common.Lock("build-asan-c20"):
         os.makedirs(bdir, exist_ok=True)
         fl = "-Wno-error -fsanitize=address -fno-omit-frame-pointer -D%s=1" % common.GUARD
         if not os.path.exists(os.path.join(bdir, "build.ninja")):
-            r = common.run(["cmake", "-G", "Ninja", "-S", common.REPO, "-B", bdir, "-DCMAKE_C_COMPILER=/usr/bin/clang-14",
-                            "-DCMAKE_CXX_COMPILER=/usr/bin/clang++-14", "-DCMAKE_BUILD_TYPE=RelWithDebInfo", "-DBUILD_TESTING=OFF",
-                            "-DCMAKE_C_FLAGS=" + fl, "-DCMAKE_CXX_FLAGS=" + fl, "-DCMAKE_SHARED_LINKER_FLAGS=-fsanitize=address"],
-                           timeout=600)
+            r, expired = run_limited(["cmake", "-G", "Ninja", "-S", common.REPO, "-B", bdir, "-DCMAKE_C_COMPILER=/usr/bin/clang-14",
+                                      "-DCMAKE_CXX_COMPILER=/usr/bin/clang++-14", "-DCMAKE_BUILD_TYPE=RelWithDebInfo",
+                                      "-DBUILD_TESTING=OFF", "-DCMAKE_C_FLAGS=" + fl, "-DCMAKE_CXX_FLAGS=" + fl,
+                                      "-DCMAKE_SHARED_LINKER_FLAGS=-fsanitize=address"], timeout=600)
             if r.returncode != 0:
-                return None, "cmake (asan) failed: " + r.stderr[-1500:]
-        r = common.run(["ninja", "-C", bdir, "dispatch", "BlocksRuntime"], timeout=900)
+                shutil.rmtree(bdir, ignore_errors=True)
+                return None, "cmake (asan) failed: " + (r.stderr[-1500:] or "no output (rc %s)" % r.returncode)
+        r, expired = run_limited(["ninja", "-C", bdir, "dispatch", "BlocksRuntime"], timeout=900)
         if r.returncode != 0:
-            return None, "asan build failed: " + r.stdout[-2500:]
-        out = os.path.join(common.CACHE, "bin", "c20_transform_asan")
+            return None, "asan build failed: " + (r.stdout[-2500:] or "no output (rc %s)" % r.returncode)
+        out = os.path.join(common.CACHE, "bin", "c20_transform_asan_%d" % os.getpid())
         os.makedirs(os.path.dirname(out), exist_ok=True)
-        r = common.run(["clang-14", "-O1", "-g", "-w", "-fblocks", "-fsanitize=address", "-D_GNU_SOURCE=1", "-I" + common.REPO,
-                        "-I" + common.REPO + "/private", "-I" + bdir, "-I" + common.REPO + "/src/BlocksRuntime",
-                        os.path.join(common.VERIF, "harness", "c20_transform.c"), "-o", out, "-L" + bdir, "-ldispatch",
-                        "-lBlocksRuntime", "-Wl,-rpath," + bdir, "-lpthread"], timeout=600)
+        r, expired = run_limited(["clang-14", "-O1", "-g", "-w", "-fblocks", "-fsanitize=address", "-D_GNU_SOURCE=1", "-I" + common.REPO,
+                                  "-I" + common.REPO + "/private", "-I" + bdir, "-I" + common.REPO + "/src/BlocksRuntime",
+                                  os.path.join(common.VERIF, "harness", "c20_transform.c"), "-o", out, "-L" + bdir, "-ldispatch",
+                                  "-lBlocksRuntime", "-Wl,-rpath," + bdir, "-lpthread"], timeout=600)
         if r.returncode != 0:
-            return None, "asan harness build failed: " + r.stderr[-1500:]
+            return None, "asan harness build failed: " + (r.stderr[-1500:] or "no output (rc %s)" % r.returncode)
         return out, ""
+
+
+def cleanup(*paths):
+    for pth in paths:
+        if pth:
+            try:
+                os.remove(pth)
+            except OSError:
+                pass
+    d = os.path.join(common.CACHE, "cases")
+    for ext in (".v", ".vo", ".vok", ".vos", ".glob"):
+        for nm in ("c20_cases_%d" % os.getpid(), ".c20_cases_%d" % os.getpid()):
+            try:
+                os.remove(os.path.join(d, nm + ext))
+            except OSError:
+                pass
+    try:
+        os.remove(os.path.join(d, ".c20_cases_%d.aux" % os.getpid()))
+    except OSError:
+        pass
 
 
 # ---------------------------------------------------------------------------------------------------------------
@@ -521,15 +597,19 @@ def parse_lists(txt):
     return out
 
 
-def run_model(cases, name="c20_cases"):
+def run_model(cases, name=None):
+    name = name or "c20_cases_%d" % os.getpid()
     rows = []
     for c in cases:
         rows.append("(%d, %d, [%s])" % (c.fi, c.fo, "; ".join("[" + "; ".join(str(x) for x in r) + "]" for r in c.regions)))
     body = "Definition cs : list (Z * Z * list (list Z)) := [\n%s].\n" % ";\n".join(rows)
     body += "Eval vm_compute in map (fun '(i, o, d) => show (transform d i o)) cs.\n"
     ok, vals, raw = driver.coq_eval(name, ["Word", "Transform"], body, timeout=1200)
+    if not ok and "TIMEOUT" in raw:
+        common.log("C20: model evaluation did not finish in 1200 s; once more with 12000 s")
+        ok, vals, raw = driver.coq_eval(name, ["Word", "Transform"], body, timeout=12000)
     if not ok or len(vals) != 1:
-        return None, raw
+        return None, raw or "coqc printed %d values" % len(vals)
     ls = parse_lists(vals[0])
     if len(ls) != len(cases):
         return None, "model printed %d results for %d cases" % (len(ls), len(cases))
@@ -568,14 +648,34 @@ def valid_utf8(b):
         return False
 
 
-def correspond(ctx):
-    exe, msg = common.build_harness("c20_transform", ["c20_transform.c"], whitebox=False)
-    if exe is None:
-        return {"mismatches": [{"what": "harness build failed", "detail": msg}], "failures": [], "evaluations": 0}
+def inverse_of(c):
+    if c.fi == 0 and c.fo in BASES:
+        return (c.fo, 0)
+    if c.fi in BASES and c.fo == 0:
+        return (0, c.fi)
+    if c.fi in (1,) and c.fo in (2, 3):
+        return (c.fo, 1)
+    if c.fi in (2, 3) and c.fo == 1:
+        return (1, c.fi)
+    if c.fi in (2, 3) and c.fo in (2, 3):
+        return (c.fo, c.fi)
+    return None
+
+
+def case_from_line(line, kind):
+    fi, fo, regs = line.split(" ", 2)
+    return Case(int(fi), int(fo), [bytes.fromhex(h) for h in regs.strip().split(",") if h not in ("-", "")], kind)
+
+
+def evaluate(ctx, exe, asan_exe, amsg, cases, big, forced_inverse=None, big_asan=None):
+    """runs and judges the given cases (library, unsplit twin, model, inverse on the library's own result, sanitizer) and
+    the given large-region cases; used by correspond() and, on the recorded inputs, by replay().
+    returns (mismatches, failures, stats)"""
     rng = ctx.rng
-    cases, dist = gen_cases(ctx)
-    mism, fails, notes = [], [], []
+    mism, fails = [], []
     seen = set()
+    stats = {"measured": 0, "inverse_runs": 0, "asan_runs": 0, "big_region_runs": 0, "model_runs": 0}
+    forced_inverse = forced_inverse or {}
 
     def fail(c, what, **kw):
         k = c.key() + "|" + what.split(":")[0]
@@ -588,69 +688,84 @@ def correspond(ctx):
         o.update(kw)
         fails.append(o)
 
-    # ---- pass 1: the cases and their unsplit twins on the library
-    twins = [Case(c.fi, c.fo, [c.flat], "twin") for c in cases]
-    died, res = run_robust(exe, cases + twins)
-    for c, x, dd in zip(cases + twins, res, died):
-        c.res = x
-        if dd:
+    def died_report(c, dd, who):
+        if dd.startswith(TIMEOUT_NOTE):
+            mism.append({"what": "inconclusive: the harness %s" % dd, "detail": {"case": c.obj(), "run": who}})
+        else:
             fail(c, "crash: the library (or the walk over the object it returned) crashed: " + dd, impl=dd)
-    # ---- the model on the same cases
-    mres, raw = run_model(cases)
-    if mres is None:
-        return {"mismatches": [{"what": "model evaluation failed (coqc)", "detail": raw}], "failures": [], "evaluations": len(cases)}
-    for c, m in zip(cases, mres):
-        c.model = m
-    # ---- pass 2: inverse transforms of the library's own results
-    inv = []      # (case, inverse case, expectation)
 
-    def inverse_of(c):
-        if c.fi == 0 and c.fo in BASES:
-            return (c.fo, 0)
-        if c.fi in BASES and c.fo == 0:
-            return (0, c.fi)
-        if c.fi in (1,) and c.fo in (2, 3):
-            return (c.fo, 1)
-        if c.fi in (2, 3) and c.fo == 1:
-            return (1, c.fi)
-        if c.fi in (2, 3) and c.fo in (2, 3):
-            return (c.fo, c.fi)
-        return None
-
-    for c in cases:
-        iv = inverse_of(c)
-        if iv and isinstance(c.res, tuple) and c.res[1] is not None and c.res[0] <= SANE:
-            ic = Case(iv[0], iv[1], split(rng, c.res[1]), "inverse")
-            inv.append((c, ic))
-    if inv:
-        died2, res2 = run_robust(exe, [ic for _, ic in inv])
-        for (c, ic), x, dd in zip(inv, res2, died2):
-            ic.res = x
+    inv = []
+    asan_cases = []
+    if cases:
+        # ---- pass 1: the cases and their unsplit twins on the library
+        twins = [Case(c.fi, c.fo, [c.flat], "twin") for c in cases]
+        died, res = run_robust(exe, cases + twins)
+        for c, x, dd in zip(cases + twins, res, died):
+            c.res = x
             if dd:
-                fail(ic, "crash: the library crashed: " + dd, impl=dd)
-    # ---- AddressSanitizer build of the same tree on all of it
-    asan_exe, amsg = asan_build()
-    asan_cases = cases + [ic for _, ic in inv]
-    if asan_exe is None:
-        mism.append({"what": "AddressSanitizer build of the working tree failed", "detail": amsg})
-    else:
-        reports, ares = run_robust(asan_exe, asan_cases, asan=True)
-        for c, rep, ax in zip(asan_cases, reports, ares):
-            c.asan = rep
-            if rep:
-                fail(c, "memory error in the library: " + rep, asan=rep)
-            elif ax != c.res:
-                mism.append({"what": "regular and AddressSanitizer builds of the library answer differently",
-                             "detail": {"case": c.obj(), "regular": show(c.res), "asan": show(ax)}})
+                died_report(c, dd, "regular build")
+            elif x is None:
+                mism.append({"what": "no answer from the harness for a case that did not kill it", "detail": {"case": c.obj()}})
+        stats["measured"] += sum(1 for c in cases + twins if c.res is not None)
+        # ---- the model on the same cases
+        mres, raw = run_model(cases)
+        if mres is None:
+            mism.append({"what": "model evaluation failed (coqc)", "detail": raw})
+            mres = [None] * len(cases)
+        else:
+            stats["model_runs"] = len(mres)
+        for c, m in zip(cases, mres):
+            c.model = m
+        # ---- pass 2: inverse transforms of the library's own results
+        for idx, c in enumerate(cases):
+            iv = inverse_of(c)
+            if iv and isinstance(c.res, tuple) and c.res[1] is not None and c.res[0] <= SANE:
+                if idx in forced_inverse:
+                    ic = forced_inverse[idx]
+                    if ic.flat != c.res[1]:
+                        # the library now returns something else: split what it returns now
+                        ic = Case(iv[0], iv[1], split(rng, c.res[1]), "inverse")
+                else:
+                    ic = Case(iv[0], iv[1], split(rng, c.res[1]), "inverse")
+                inv.append((c, ic))
+        if inv:
+            died2, res2 = run_robust(exe, [ic for _, ic in inv])
+            for (c, ic), x, dd in zip(inv, res2, died2):
+                ic.res = x
+                if dd:
+                    died_report(ic, dd, "regular build, inverse pass")
+                elif x is None:
+                    mism.append({"what": "no answer from the harness for an inverse case", "detail": {"case": ic.obj()}})
+            stats["inverse_runs"] = sum(1 for _, ic in inv if ic.res is not None)
+            stats["measured"] += stats["inverse_runs"]
+        # ---- AddressSanitizer build of the same tree on all of it
+        asan_cases = cases + [ic for _, ic in inv]
+        if asan_exe is None:
+            mism.append({"what": "AddressSanitizer build of the working tree failed", "detail": amsg})
+        else:
+            reports, ares = run_robust(asan_exe, asan_cases, asan=True)
+            for c, rep, ax in zip(asan_cases, reports, ares):
+                c.asan = None
+                if rep and rep.startswith(TIMEOUT_NOTE):
+                    mism.append({"what": "inconclusive: the harness (AddressSanitizer build) %s" % rep, "detail": {"case": c.obj()}})
+                elif rep:
+                    c.asan = rep
+                    fail(c, "memory error in the library: " + rep, asan=rep)
+                elif ax != c.res:
+                    mism.append({"what": "regular and AddressSanitizer builds of the library answer differently",
+                                 "detail": {"case": c.obj(), "regular": show(c.res), "asan": show(ax)}})
+            stats["asan_runs"] = sum(1 for ax in ares if ax is not None)
+            stats["measured"] += stats["asan_runs"]
 
     # ---- regions of tens of megabytes (around BUFFER_MALLOC_MAX/3, /2, the exact limits and beyond): library only
-    big = gen_big(ctx)
-    nbig = run_big(exe, big, fail)
-    if asan_exe is not None and ctx.tier != "quick":
-        nbig += run_big(asan_exe, gen_big(ctx)[::3], fail, asan=True)
+    if big:
+        stats["big_region_runs"] += run_big(exe, big, fail, mism)
+    if big_asan and asan_exe is not None:
+        stats["big_region_runs"] += run_big(asan_exe, big_asan, fail, mism, asan=True)
+    stats["measured"] += stats["big_region_runs"]
 
     # ---- judge + compare
-    for c, t in zip(cases, twins):
+    for c, t in (zip(cases, twins) if cases else []):
         x, m = c.res, c.model
         if isinstance(x, tuple) and (x[1] is None or x[0] > SANE):
             fail(c, "size: the returned object claims %d bytes" % x[0], impl=show(x))
@@ -661,7 +776,7 @@ def correspond(ctx):
             if not shown:
                 mism.append({"what": "model reports an out-of-bounds access the library run does not show",
                              "detail": {"case": c.obj(), "model": show(m), "impl": show(x)}})
-        elif x is not None and not (isinstance(x, tuple) and x[1] is None):
+        elif m is not None and x is not None and not (isinstance(x, tuple) and x[1] is None):
             if x != m and not c.asan:
                 mism.append({"what": "implementation and Model/Transform.v differ",
                              "detail": {"case": c.obj(), "impl": show(x), "model": show(m)}})
@@ -686,29 +801,51 @@ def correspond(ctx):
             fail(c, "roundtrip: UTF-8 > UTF-16 > UTF-8 gives %s" % show(y), impl=show(x), inverse=ic.obj(), inverse_result=show(y))
     # positive expectations that do not need an inverse
     for c in cases:
-        if c.fi in BASES and c.fo == 0 and c.kind == "decode-valid" and isinstance(c.res, tuple) and c.res[1] is not None:
+        kind = c.kind.split(":")[0]
+        if c.fi in BASES and c.fo == 0 and kind == "decode-valid" and isinstance(c.res, tuple) and c.res[1] is not None:
             e = bytes(b for b in c.flat if b not in (9, 10, 32))
             want = {5: base64.b32decode, 6: base64.b32hexdecode, 7: base64.b64decode}[c.fi](e)
             if c.res[1] != want:
                 fail(c, "decode: a valid encoding of %s decodes to %s" % (want.hex() or "(empty)", show(c.res)), impl=show(c.res))
-        # (UTF_ANY needs two bytes to look for a byte-order mark: shorter input is NULL by design, transform.c:192-196)
-        if c.kind in ("decode-valid", "encode", "utf8-valid", "utf16-valid") and c.res == "N" and not (c.fi == 4 and len(c.flat) < 2) \
+        # (UTF_ANY needs two bytes to look for a byte-order mark: shorter input is NULL, transform.c:192-196)
+        if kind in ("decode-valid", "encode", "utf8-valid", "utf16-valid") and c.res == "N" and not (c.fi == 4 and len(c.flat) < 2) \
                 and not (c.fi == 2 and c.flat[:2] == b"\xfe\xff") and not (c.fi == 3 and c.flat[:2] == b"\xff\xfe"):
-            # (a leading U+FFFE is taken for a byte-order mark of the other byte order and rejected by design, transform.c:463)
+            # (a leading U+FFFE is taken for a byte-order mark of the other byte order and rejected, transform.c:463)
             fail(c, "null: well-formed input is rejected (NULL)", impl="NULL")
-    nontrivial = len({(c.fi, c.fo, c.flat, tuple(len(r) for r in c.regions)) for c in cases})
+    return mism, fails, stats
+
+
+def correspond(ctx):
+    exe, msg = build_plain_harness()
+    if exe is None:
+        return {"mismatches": [{"what": "harness build failed", "detail": msg}], "failures": [], "evaluations": 0}
+    asan_exe, amsg = asan_build()
+    try:
+        cases, dist = gen_cases(ctx)
+        big = gen_big(ctx)
+        big_asan = gen_big(ctx)[::3] if ctx.tier != "quick" else None
+        mism, fails, stats = evaluate(ctx, exe, asan_exe, amsg, cases, big, big_asan=big_asan)
+    finally:
+        cleanup(exe, asan_exe)
+    # floor: a run that measured nothing shows nothing
+    if not cases or stats["measured"] == 0 or stats["model_runs"] == 0:
+        mism.append({"what": "nothing was measured", "detail": {"cases": len(cases), "stats": stats}})
+    if stats["big_region_runs"] == 0:
+        mism.append({"what": "no large-region case was answered", "detail": {"requested": len(big)}})
+    nontrivial = len({(c.fi, c.fo, c.flat, tuple(len(r) for r in c.regions)) for c in cases if c.res is not None})
     dist2 = dict(dist)
     dist2["null_results"] = sum(1 for c in cases if c.res == "N")
     dist2["multi_region_inputs"] = sum(1 for c in cases if len(c.regions) > 1)
-    dist2["inverse_runs"] = len(inv)
-    dist2["asan_runs"] = len(asan_cases) if asan_exe else 0
-    dist2["big_region_runs"] = nbig
-    dist2["big_region_sizes"] = sorted({c.size() for c in big})
+    dist2["inverse_runs"] = stats["inverse_runs"]
+    dist2["asan_runs"] = stats["asan_runs"]
+    dist2["model_runs"] = stats["model_runs"]
+    dist2["big_region_runs"] = stats["big_region_runs"]
+    dist2["big_region_sizes"] = sorted({c.size() for c in big if c.res})
     dist2["model_outcomes"] = {"ok": sum(1 for c in cases if isinstance(c.model, tuple) and c.model[0] != "OOB"),
                                "null": sum(1 for c in cases if c.model == "N"),
                                "oob": sum(1 for c in cases if isinstance(c.model, tuple) and c.model[0] == "OOB")}
     samples = [dict(c.obj(), impl=show(c.res), model=show(c.model)) for c in (cases[0], cases[17], cases[len(cases) // 2], cases[-1])]
-    return {"evaluations": len(cases) + len(twins) + len(inv) + (len(asan_cases) if asan_exe else 0) + nbig,
+    return {"evaluations": stats["measured"],
             "distinct_nontrivial": nontrivial,
             "rule": "fixed corpus of defect witnesses, all 64 format pairs, all 256 byte values through each decode table, then "
                     "seeded random: byte strings of every length 0..16 and random lengths to 70 x {one region, single bytes, one cut, "
@@ -721,32 +858,82 @@ def correspond(ctx):
                     "AddressSanitizer. Plus single regions of 35-150 MB (sizes at and around BUFFER_MALLOC_MAX/3, /2, "
                     "(MAX-2)/2, MAX-6, MAX and beyond; ASCII, CJK, surrogate pairs; UTF-8, UTF-16LE/BE, Base64/32) built in "
                     "the harness: the inverse pair is applied to the very object the transform returned and must give the "
-                    "input back (library only, no model run at these sizes)",
-            "samples": samples, "distribution": dist2, "mismatches": mism[:60], "failures": fails[:200], "notes": notes}
+                    "input back (library only: the model, in particular its clamp branch of buffer_new, is not evaluated at "
+                    "these sizes). `evaluations` counts answers actually received",
+            "samples": samples, "distribution": dist2, "mismatches": mism[:60], "failures": fails[:200], "notes": []}
 
 
 def replay(ctx, obj):
-    exe, msg = common.build_harness("c20_transform", ["c20_transform.c"], whitebox=False)
+    """re-executes every recorded failing input (and every recorded model/library disagreement) against the current
+    build and judges it again with the judge of correspond().  1 = at least one reproduces, 0 = all were executed and none
+    reproduces, 2 = something recorded could not be executed (a proof / build entry): only a full ./check re-establishes it"""
+    exe, msg = build_plain_harness()
+    if exe is None:
+        print("cannot replay: harness build failed: " + msg)
+        return 2
     asan_exe, amsg = asan_build()
-    rc = 0
-    for f in obj.get("failures", []):
-        line = f.get("harness_line")
-        if not line:
-            continue
+    reproduced, executed, unexecutable = 0, 0, 0
+
+    def rerun(rec, want_kind):
+        """rec: dict with harness_line, generator[, inverse].  returns (mismatches, failures) of the re-run"""
+        line = rec.get("harness_line", "")
         if line.startswith("R "):
-            r = common.run([exe], input=line + "\n", timeout=900)
-            print("%s\n   now: %s" % (f.get("what"), r.stdout.strip().replace("\n", " | ")))
-            rc = 1
-            continue
-        fi, fo, regs = line.split(" ", 2)
-        c = Case(int(fi), int(fo), [bytes.fromhex(h) for h in regs.split(",") if h != "-"], "replay")
-        r, res = run_lib(exe, [c, Case(c.fi, c.fo, [c.flat], "twin")])
-        print("%s\n   now: %s ; unsplit: %s" % (f.get("what"), show(res[0] if res else None), show(res[1] if len(res) > 1 else None)))
-        if asan_exe:
-            rep, _ = run_robust(asan_exe, [c], asan=True)
-            print("   sanitizer: %s" % (rep[0] or "no report"))
-        rc = 1
-    for b in obj.get("broken", []):
-        print("no longer checks:", b)
-        rc = 1
-    return rc
+            return evaluate(ctx, exe, asan_exe, amsg, [], [big_from_line(line, rec.get("generator", "replay"))])[:2]
+        kind = rec.get("generator", "replay")
+        c = case_from_line(line, kind)
+        forced = {}
+        if isinstance(rec.get("inverse"), dict) and rec["inverse"].get("harness_line"):
+            forced[0] = case_from_line(rec["inverse"]["harness_line"], "inverse")
+        return evaluate(ctx, exe, asan_exe, amsg, [c], [], forced_inverse=forced)[:2]
+
+    try:
+        for f in obj.get("failures", []):
+            if not f.get("harness_line"):
+                print("recorded failure without input (cannot be executed): %s" % f.get("what"))
+                unexecutable += 1
+                continue
+            want = f.get("key", "|").split("|")[-1]
+            mism, fails = rerun(f, want)
+            executed += 1
+            hit = [g for g in fails if g["key"].split("|")[-1] == want]
+            other = [g for g in fails if g not in hit]
+            if hit:
+                reproduced += 1
+                print("REPRODUCES: %s" % hit[0]["what"])
+            else:
+                print("does not reproduce: %s" % f.get("what"))
+                for g in other:
+                    print("   (but now: %s)" % g["what"])
+                    reproduced += 1
+            for m in mism:
+                print("   (tie broken on this input now: %s)" % m["what"])
+        for b in obj.get("broken", []):
+            d = b.get("detail") if isinstance(b, dict) else None
+            case = d.get("detail", {}).get("case") if isinstance(d, dict) and isinstance(d.get("detail"), dict) else None
+            if b.get("what") == "correspondence" and isinstance(case, dict) and case.get("harness_line"):
+                mism, fails = rerun(case, None)
+                executed += 1
+                if mism or fails:
+                    reproduced += 1
+                    for m in mism:
+                        print("REPRODUCES (model and library / builds disagree): %s %s" % (m["what"], str(m.get("detail"))[:300]))
+                    for g in fails:
+                        print("REPRODUCES as a failure: %s" % g["what"])
+                else:
+                    print("does not reproduce: %s on %s" % (d.get("what"), case.get("harness_line")))
+            else:
+                unexecutable += 1
+                print("no longer checked (not re-executable here): %s" % (str(b)[:400]))
+    finally:
+        cleanup(exe, asan_exe)
+    if reproduced:
+        return 1
+    if unexecutable:
+        print("nothing reproduces, but %d recorded entr%s (proof / build / generic tie) cannot be re-executed by a replay: "
+              "only a full ./check C20 re-establishes them" % (unexecutable, "y" if unexecutable == 1 else "ies"))
+        return 2
+    if executed == 0:
+        print("the replay file records no input")
+        return 2
+    print("does not reproduce (%d recorded inputs re-run and re-judged)" % executed)
+    return 0
